@@ -114,7 +114,7 @@ Lemma ss_rp_lock_reads : forall c s a b v s', ss_rp_lock c s a b v = Some s' -> 
 Proof. unfold ss_rp_lock; intros. crush H; misc_base. unfold st_misc in *. cbn in *. congruence. Qed.
 Lemma ss_rp_unlock_reads : forall c s a s', ss_rp_unlock c s a = Some s' -> st_reads s' = st_reads s.
 Proof. unfold ss_rp_unlock; intros. crush H; misc_base. unfold st_misc in *. cbn in *. congruence. Qed.
-Lemma ss_add_assigner_reads : forall c s a n i t s', ss_add_assigner c s a n i t = Some s' -> st_reads s' = st_reads s.
+Lemma ss_add_assigner_reads : forall c s a n k i t s', ss_add_assigner c s a n k i t = Some s' -> st_reads s' = st_reads s.
 Proof. unfold ss_add_assigner; intros. crush H; misc_base. reflexivity. Qed.
 Lemma ss_free_alloc_reads : forall c s now id sender ass rec coin nonce sig bl s',
   ss_free_alloc c s now id sender ass rec coin nonce sig bl = Some s' -> st_reads s' = st_reads s.
